@@ -183,6 +183,11 @@ pub fn run(tier: Tier, report: &mut Report, family_docs: &dyn Fn(&str) -> Vec<Do
                             }
                         }
                         acc.outcome(format!("{format}:{accepted}:{}", verdict.as_ref().map_or("ok", |v| &v.0)));
+                        if matches!(&verdict, Some((k, _)) if k == "panic") {
+                            // nothing was accepted: a panic is C05's question, not C06's
+                            acc.count("executions_that_panicked (not judged here, see C05)", 1);
+                            continue;
+                        }
                         if let Some((k, why)) = verdict {
                             let key = format!("{format}/accepted-meaning/{k}");
                             acc.violation_with(&key, input.len() as u64, || (format!("{format} parser <{lit}> on {:?} [{}]: {why}", show(input), spec.describe()), json!({"property": "C06", "format": format, "lit": lit, "input_hex": hex(input), "input": show(input), "spec": spec.to_json()})));
@@ -214,7 +219,7 @@ pub fn replay(v: &mc_core::Value) -> (bool, String) {
         refparse::parse(&input, binary, &max_code_of(lit)),
         verdict.as_ref().map_or(if accepted { "accepted, same meaning".to_string() } else { "rejected".to_string() }, |(k, w)| format!("{k}: {w}"))
     );
-    (verdict.is_some(), text)
+    (verdict.as_ref().map_or(false, |(k, _)| k != "panic"), text)
 }
 
 pub const RULE: &str = "AIGER ascii and binary x literal types: boundary documents (every numeric token of three base documents replaced by {0..11, 254..256, 65534..65536, 2^32-1, 2^32, M_max-1..M_max+1, 2M_max..2M_max+2, MAX_CODE, MAX_CODE+1, 2^64-1, 2^64}; every symbol index by {0,1,2,2^64-1,2^64}; binary deltas 0..14 x 0..14 and multi-byte codes) plus every document of the C01 families, x {one-shot, byte-wise}; whenever flussab's parse() accepts, an independent reference reader (format rules: 2M+1 <= MAX_CODE, I+L+A <= M, literals <= 2M+1, defined literals even and non-zero, section sizes = header counts, latch reset in {0,1,own}, symbol index < section size, delta <= code, UTF-8 names, comment ends with newline) must accept and read identical numbers (big decimals), symbols and comment. Non-trivial = accepted documents";
